@@ -298,6 +298,7 @@ def evidence(acc):
 def _lossy_bam(seg, world, smp, loss, path):
     """Container writer that omits records."""
     reads = W.sample_reads(world, smp)
+    n_all = len(reads)
     ga = next(g for g in world["genes"] if g["name"] == seg["gene_a"])
     spans = []
     pad = 0
@@ -346,7 +347,7 @@ def _lossy_bam(seg, world, smp, loss, path):
         inside = [r for r in reads if c0 <= r[0] and ref_end(r) <= c1]
         kept += inside[:1]
     W.write_bam(path, world, kept, build=seg["build"])
-    return len(reads), len(kept)
+    return n_all, len(kept)
 
 
 def run_segment(seg):
